@@ -183,6 +183,22 @@ void backup_create_md5_file(const char *filename)
               dig[12], dig[13], dig[14], dig[15],
               path_basename(filename));
 
-      fclose(thefile);
+      // a stale or missing md5 makes the next run overwrite the backup with
+      // the text written just now: do not stay silent about it
+      bool failed = (ferror(thefile) != 0);
+
+      if (  fclose(thefile) != 0
+         || failed)
+      {
+         LOG_FMT(LERR, "%s: writing %s failed: %s (%d)\n",
+                 __func__, newpath, strerror(errno), errno);
+         exit(EX_IOERR);
+      }
+   }
+   else
+   {
+      LOG_FMT(LERR, "%s: fopen(%s) failed: %s (%d)\n",
+              __func__, newpath, strerror(errno), errno);
+      exit(EX_IOERR);
    }
 } // backup_create_md5_file
